@@ -25,7 +25,7 @@ func runSmoke(c *Ctx) {
 		if _, e := w.DB.ExecContext(ctx, "INSERT INTO "+t+" (id, name, n) VALUES (?, ?, ?)", 3, "c", 30); e != nil {
 			return e
 		}
-		if _, e := w.DB.ExecContext(ctx, "DELETE FROM "+t+" WHERE n > 15 AND id < 3", ); e != nil {
+		if _, e := w.DB.ExecContext(ctx, "DELETE FROM "+t+" WHERE n > 15 AND id < 3"); e != nil {
 			return e
 		}
 		return fmt.Errorf("force rollback")
